@@ -202,7 +202,60 @@ RefP(kind) ==
     [] kind = "hex"  -> HexOff
     [] kind = "wedge" -> << <<0,0,0>>, <<1,0,0>>, <<0,1,0>>, <<0,0,1>>, <<1,0,1>>, <<0,1,1>> >>
 
-NumberClauses(e) ==
+\* ---- the reference location of local basis function r lies on the reference entity that row r of the per-cell
+\* table belongs to (rows: vertices in local order, local edges loc.le, local facets loc.lf, cell).  Together with
+\* RowOrder and DofLocsCoherent: a number of the per-edge table is located on that edge, etc.
+RowEntity(e, r) ==
+  LET nN == NNodes(e.kind) * e.sig.n
+      nE == NRefEdges(e.kind) * e.sig.e
+      nF == NRefFacets(e.kind) * e.sig.f
+  IN IF r <= nN THEN {((r - 1) \div e.sig.n) + 1}
+     ELSE IF r <= nN + nE THEN VSet(e.loc.le[((r - nN - 1) \div e.sig.e) + 1])
+     ELSE IF r <= nN + nE + nF THEN VSet(e.loc.lf[((r - nN - nE - 1) \div e.sig.f) + 1])
+     ELSE 1..NNodes(e.kind)
+OnRefEntity(kind, L, a, S) ==
+  IF kind \in {"line", "tri", "tet"}
+  THEN LET lam == <<L - SumSeq(a)>> \o a IN                      \* barycentric coordinates times L
+       \A v \in 1..NNodes(kind) : lam[v] >= 0 /\ (v \notin S => lam[v] = 0)
+  ELSE IF kind \in {"quad", "hex"}
+  THEN \A c \in 1..Dim(kind) : LET bs == {RefP(kind)[v][c] : v \in S} IN
+          IF Cardinality(bs) = 1 THEN \A b \in bs : a[c] = L * b ELSE a[c] \in 0..L
+  ELSE LET lam == <<L - a[1] - a[2], a[1], a[2]>>                 \* wedge = triangle x segment
+           T   == {((v - 1) % 3) + 1 : v \in S}
+           lv  == {(v - 1) \div 3 : v \in S}
+       IN /\ \A j \in 1..3 : lam[j] >= 0 /\ (j \notin T => lam[j] = 0)
+          /\ IF Cardinality(lv) = 1 THEN \A b \in lv : a[3] = L * b ELSE a[3] \in 0..L
+LocOnEntity(e) ==
+  /\ Len(e.loc.ref) = NBfun(e.kind, e.sig)
+  /\ {VSet(e.loc.lf[s]) : s \in DOMAIN e.loc.lf} = RefFacets(e.kind) /\ Len(e.loc.lf) = NRefFacets(e.kind)
+  /\ {VSet(e.loc.le[s]) : s \in DOMAIN e.loc.le} = RefEdges(e.kind) /\ Len(e.loc.le) = NRefEdges(e.kind)
+  /\ \A r \in DOMAIN e.loc.ref :
+        \/ e.loc.ref[r] = <<>>
+        \/ /\ Len(e.loc.ref[r]) = Dim(e.kind)
+           /\ OnRefEntity(e.kind, e.loc.L, e.loc.ref[r], RowEntity(e, r))
+
+\* ---- composite elements: e.dec = [sigs, dec]; dec[i] = <<component, index within the component>> as the composite
+\* itself decodes local basis function i (ElementComposite._deduce_bfun).  The composite's local functions follow the
+\* row order of the per-cell table: per vertex / local edge / local facet / cell the components in turn, and a
+\* component's functions keep the component's own order.
+CompositeExpected(kind, sigs) ==
+  LET nc == Len(sigs)
+      nn == NNodes(kind)  ne == NRefEdges(kind)  nf == NRefFacets(kind)
+  IN FlattenSeq([j \in 1..nn |-> FlattenSeq([c \in 1..nc |-> [q \in 1..sigs[c].n |-> <<c, (j - 1) * sigs[c].n + q>>]])])
+     \o FlattenSeq([g \in 1..ne |-> FlattenSeq([c \in 1..nc |->
+             [q \in 1..sigs[c].e |-> <<c, nn * sigs[c].n + (g - 1) * sigs[c].e + q>>]])])
+     \o FlattenSeq([g \in 1..nf |-> FlattenSeq([c \in 1..nc |->
+             [q \in 1..sigs[c].f |-> <<c, nn * sigs[c].n + ne * sigs[c].e + (g - 1) * sigs[c].f + q>>]])])
+     \o FlattenSeq([c \in 1..nc |->
+             [q \in 1..sigs[c].i |-> <<c, nn * sigs[c].n + ne * sigs[c].e + nf * sigs[c].f + q>>]])
+CompositeDecodeOK(e) ==
+  /\ e.sig.n = SumSeq([c \in DOMAIN e.dec.sigs |-> e.dec.sigs[c].n])
+  /\ e.sig.e = SumSeq([c \in DOMAIN e.dec.sigs |-> e.dec.sigs[c].e])
+  /\ e.sig.f = SumSeq([c \in DOMAIN e.dec.sigs |-> e.dec.sigs[c].f])
+  /\ e.sig.i = SumSeq([c \in DOMAIN e.dec.sigs |-> e.dec.sigs[c].i])
+  /\ e.dec.dec = CompositeExpected(e.kind, e.dec.sigs)
+
+NumberClausesBase(e) ==
   IF ~NumWellFormed(e) THEN [WellFormed |-> FALSE]
   ELSE LET cd == CellSets(e)
            base == [ WellFormed |-> TRUE,
@@ -213,9 +266,15 @@ NumberClauses(e) ==
                      RowOrder |-> RowOrder(e),
                      TableShapes |-> TableShapes(e) ]
        IN IF e.loc.mode = "none" THEN base
+          ELSE IF e.loc.mode = "missing" THEN base @@ [DofLocsAvailable |-> FALSE]     \* element gives locations, basis has no table
           ELSE IF e.loc.mode = "inexact" THEN base @@ [DofLocsExact |-> FALSE]
-          ELSE IF base.Contiguous /\ e.N <= 100000
-               THEN base @@ [DofLocsCoherent |-> DofLocsCoherent(e)] ELSE base
+          ELSE (IF base.Contiguous /\ e.N <= 100000
+                THEN base @@ [DofLocsCoherent |-> DofLocsCoherent(e)] ELSE base)
+               @@ [LocOnEntity |-> LocOnEntity(e)]
+NumberClauses(e) ==
+  LET base == NumberClausesBase(e) IN
+  IF base.WellFormed /\ "dec" \in DOMAIN e /\ e.dec.sigs # <<>>
+  THEN base @@ [CompositeDecodeOK |-> CompositeDecodeOK(e)] ELSE base
 
 \* the transcription reproduces what the code reported (model drift indicator, not a verdict)
 ImplAgrees(e) ==
@@ -303,11 +362,18 @@ DofsOf(b, cl, allowed) == UNION {DofsOfKind(b, cl, kc, allowed) : kc \in Kinds}
 
 \* a Query event q: sel [kind, ids], skip (names), op [k, names, names2, ids2], res <<[form, err, out | dict]>>
 AllowedBySkip(b, q) == AllNames(b) \ VSet(q.skip)
+\* successive name filters intersect: steps = <<[o |-> "keep" | "all" | "drop", names |-> <<...>>], ...>>
+RECURSIVE ChainAllowed(_, _)
+ChainAllowed(allowed, steps) ==
+  IF steps = <<>> THEN allowed
+  ELSE ChainAllowed(IF Head(steps).o = "drop" THEN allowed \ VSet(Head(steps).names)
+                    ELSE allowed \cap VSet(Head(steps).names), Tail(steps))
 AllowedNames(b, q) ==
   CASE q.op.k \in {"flatten", "or", "nodal", "edge", "facet", "interior"} -> AllowedBySkip(b, q)
     [] q.op.k \in {"all", "keep"} -> AllowedBySkip(b, q) \cap VSet(q.op.names)
     [] q.op.k = "drop"            -> AllowedBySkip(b, q) \ VSet(q.op.names)
     [] q.op.k = "keepdrop"        -> (AllowedBySkip(b, q) \cap VSet(q.op.names)) \ VSet(q.op.names2)
+    [] q.op.k = "chain"           -> ChainAllowed(AllowedBySkip(b, q), q.op.steps)
 QueryClosure(b, q) ==
   IF q.op.k = "or" THEN ClosureUnion(ClosureOf(b, q.sel), ClosureOf(b, [kind |-> q.sel.kind, ids |-> q.op.ids2]))
   ELSE ClosureOf(b, q.sel)
@@ -330,6 +396,7 @@ QueryWellFormed(b, q) ==
 PrimaryClause(q) ==
   CASE IsDictOp(q) -> "ByKindNames"
     [] q.op.k = "or" -> IF q.skip # <<>> THEN "UnionViewSkip" ELSE "UnionView"
+    [] q.op.k = "chain" -> "FilterComposition"
     [] q.op.k \in {"all", "keep", "drop", "keepdrop"} -> "NameFilter"
     [] q.skip # <<>> -> "SkipFilter"
     [] q.sel.kind = "none" -> "ArgumentFreeIsBoundary"
